@@ -145,7 +145,23 @@ CHECKS["C04"] = {
     "technique": "property-based testing (rapid, grammar-based configuration generator) against an independent reference model of the documentation",
 }
 
+CHECKS["C06"] = {
+    "title": "check verdicts enforced; each check sees each stage once",
+    "go": GO,
+    "units": [
+        {"name": "msgpipeline", "pkg": "internal/msgpipeline", "run": "^TestVerifC06",
+         "overlay": {"verif_c06_test.go": "harness/C06/checks_test.go", "verif_common_test.go": "harness/shared/msgpipeline_common_test.go"}},
+    ],
+    "quick": {"n": 24000, "shards": 16},
+    "thorough": {"n": 960000, "shards": 16},
+    "level_text": "randomised search (rapid) over check placements, verdict scripts, envelopes, body paths and completion-delay ranks, run through the real "
+                  "pipeline and check runner; oracle = stage-by-stage reference model + per-state call log + metamorphic (ignore) and differential (SMTP vs LMTP body path) relations.",
+    "level_note": "completion orders of the parallel check goroutines are varied with small per-check delays rather than an owned scheduler (the oracle is order-independent); "
+                  "a refusal caused by replaying an earlier recipient to a check first met later is tolerated, not required",
+    "technique": "property-based testing (rapid) with a reference model, call-log invariants, metamorphic and differential relations",
+}
+
 # properties deliberately not claimed: {"property_id":..., "reason":...}
 NOT_APPLICABLE = []
 
-FIX_COMMITS = ["b0fbfbf", "ce16772", "79536cb", "9da7ceb", "ba9a898", "cd17c24", "0f579ef", "cfad1cd", "1450983", "0eb6137", "4ba5ca6", "2f36527"]
+FIX_COMMITS = ["b0fbfbf", "ce16772", "79536cb", "9da7ceb", "ba9a898", "cd17c24", "0f579ef", "cfad1cd", "1450983", "0eb6137", "4ba5ca6", "2f36527", "0e0d97d", "b946db5"]
